@@ -1,7 +1,7 @@
 """C01 — preconditions gate every call: the body runs iff the effective precondition holds."""
 from typing import Any, Dict, List
 
-from vkit import gen, prog, runner
+from vkit import gen, probe, prog, runner
 from vkit.model import Model, decos_of, mkey
 
 ID = "C01"
@@ -16,7 +16,9 @@ RULE = (
     "functions and awaitable-returning functions with all four error forms; ALL truth assignments per callable "
     "(capped at 64, then sampled) with return values drawn from pools of truthy/falsy objects. A case is one call; it "
     "is non-trivial if at least one precondition was evaluated; distinct = distinct (callable kind, async, group "
-    "shape, surroundings, truth vector) tuples."
+    "shape, surroundings, truth vector) tuples. A fixed family of special signatures (positional-only next to **kwargs, "
+    "keyword-only after *args, defaults; functions, a method and a static method; sync and async) is called with "
+    "colliding keywords: the precondition must be evaluated on the value Python binds for the body and gate on it."
 )
 ASSUMPTIONS = [
     "the reference model (vkit/model.py) encodes the statement's DNF semantics",
@@ -242,14 +244,130 @@ def run_program(w, prog_spec, pending) -> None:
         loaded.unload()
 
 
+SIGNATURE_SOURCE = '''
+import icontract
+
+LOG = []
+
+
+def positive_x(x):
+    LOG.append(("pre", "x", x))
+    return x > 0
+
+
+def positive_k(k):
+    LOG.append(("pre", "k", k))
+    return k > 0
+
+
+@icontract.require(positive_x)
+{a}def posonly_kwargs(x, /, **kwargs):
+    LOG.append(("body", "x", x))
+    return x
+
+
+@icontract.require(positive_x)
+{a}def posonly_default_kwargs(x=1, /, **kwargs):
+    LOG.append(("body", "x", x))
+    return x
+
+
+@icontract.require(positive_k)
+{a}def kwonly_after_varargs(x, *rest, k=10):
+    LOG.append(("body", "k", k))
+    return k
+
+
+@icontract.require(positive_x)
+{a}def default_then_kwargs(a, x=-1, **kwargs):
+    LOG.append(("body", "x", x))
+    return x
+
+
+class K:
+    @icontract.require(positive_x)
+    {a}def method(self, x, /, *rest, **kwargs):
+        LOG.append(("body", "x", x))
+        return x
+
+    @staticmethod
+    @icontract.require(positive_k)
+    {a}def static(*rest, k=-2, **kwargs):
+        LOG.append(("body", "k", k))
+        return k
+'''
+
+# (callable, positional arguments, keyword arguments, the parameter the precondition reads, the value the body receives for it)
+SIGNATURE_CALLS = [
+    ("posonly_kwargs", (1,), {"x": -5}, 1), ("posonly_kwargs", (-1,), {"x": 5}, -1), ("posonly_kwargs", (2,), {"y": -3}, 2),
+    ("posonly_kwargs", (0,), {"x": 1}, 0),
+    ("posonly_default_kwargs", (), {"x": -7}, 1), ("posonly_default_kwargs", (-3,), {"x": 7}, -3), ("posonly_default_kwargs", (), {}, 1),
+    ("kwonly_after_varargs", (1, -2, -3), {}, 10), ("kwonly_after_varargs", (1, 2), {"k": -4}, -4), ("kwonly_after_varargs", (-1,), {"k": 1}, 1),
+    ("default_then_kwargs", (1,), {}, -1), ("default_then_kwargs", (1,), {"x": 3}, 3), ("default_then_kwargs", (1, 2), {"y": -1}, 2),
+    ("K.method", (1,), {"x": -5}, 1), ("K.method", (-1, 2), {"x": 5}, -1),
+    ("K.static", (1, 2), {}, -2), ("K.static", (-1,), {"k": 3}, 3), ("K.static", (), {"k": -3, "x": 1}, -3),
+]
+
+
+def run_signatures(w) -> None:
+    """Special signatures (positional-only next to **kwargs, keyword-only after *args, defaults), sync and async: the precondition
+    must gate the call on the very value which the body receives - the expected value is fixed by Python's own binding rules."""
+    import icontract  # pylint: disable=import-outside-toplevel
+
+    for is_async in (False, True):
+        loaded = prog.load_source(SIGNATURE_SOURCE.replace("{a}", "async " if is_async else ""), w.scratch())
+        mod = loaded.module
+        try:
+            for name, args, kwargs, received in SIGNATURE_CALLS:
+                target = mod
+                for part in name.split("."):
+                    target = getattr(target, part)
+                if name == "K.method":
+                    target = getattr(mod.K(), "method")
+                del mod.LOG[:]
+                try:
+                    res = target(*args, **kwargs)
+                    if is_async:
+                        res = probe.drive(res)
+                    outcome = "returned"
+                except icontract.ViolationError:
+                    outcome = "violation"
+                except BaseException as err:  # pylint: disable=broad-except
+                    outcome = "raised {}: {}".format(type(err).__name__, str(err)[:100])
+                log = list(mod.LOG)
+                holds = received > 0
+                w.count("pre_evaluations", len([e for e in log if e[0] == "pre"]))
+                w.count("calls_pre_true" if holds else "calls_pre_false")
+                w.count("signature_calls")
+                w.case(("signature", name, is_async, str(args), str(sorted(kwargs.items()))))
+                case = {"signature": name, "async": is_async, "args": list(args), "kwargs": kwargs}
+                entered = [e for e in log if e[0] == "body"]
+                seen = [e[2] for e in log if e[0] == "pre"]
+                what = "{}{}(*{}, **{}): the body receives {!r}, the precondition was evaluated on {}, outcome {}, log {}".format(
+                    "async " if is_async else "", name, args, kwargs, received, seen, outcome, log)
+                if seen != [received]:
+                    w.violation("C01/precondition-evaluated-on-other-value-than-the-body-receives", what, case)
+                elif holds and (outcome != "returned" or not entered):
+                    w.violation("C01/body-skipped", what, case)
+                elif not holds and (outcome != "violation" or entered):
+                    w.violation("C01/body-entered", what, case)
+        finally:
+            loaded.unload()
+
+
 def run(w) -> None:
     w.exhaustive = False
+    if w.shard == 0:
+        run_signatures(w)
     for prog_spec, pending in programs(w):
         w.count("programs")
         run_program(w, prog_spec, pending)
 
 
 def replay(case, w) -> None:
+    if "signature" in case:
+        run_signatures(w)
+        return
     prog_spec = case["prog"]
     model = Model(prog_spec)
     contracts = runner.index_contracts(prog_spec)
